@@ -107,7 +107,22 @@ def rule_line(chk, prefix="C10", flush=True):
     writes = [(n, c, m) for n, c, m, a in fcalls if a == "write"]
     flushes = [(n, c, m) for n, c, m, a in fcalls if a == "flush"]
     others = [(n, c, m, a) for n, c, m, a in fcalls if a not in ("write", "flush")]
-    chk.need(writes, "FileDestination.__call__ no longer calls self.file.write")
+    if not writes:
+        # bound methods of the file cached on the record at construction?
+        new_ = _fd(chk, "__new__")
+        fparam = [a.arg for a in new_.node.args.args][1]
+        cached = {}
+        for n in iter_own_nodes(new_.node):
+            if isinstance(n, ast.Call):
+                for k in n.keywords:
+                    if k.arg and isinstance(k.value, ast.Attribute) and isinstance(k.value.value, ast.Name) and k.value.value.id == fparam:
+                        cached[k.arg] = k.value.attr
+        used = [c for n in cfg.live for c, m in calls_in_node(n) if isinstance(c.func, ast.Attribute) and common.is_self_attr(c.func) and c.func.attr in cached]
+        if used:
+            chk.bad("%s.line" % prefix, "FileDestination.__call__:file-methods-looked-up-per-call", chk.where(f),
+                    "the file's %s are bound once at construction (%s) and called through the record: for a file-like object that delegates to an underlying file which is later replaced (rotation), writes/flushes go to the old object and an acknowledged line never leaves the process"
+                    % (sorted(set(cached.values())), sorted(cached)))
+            return
     where = chk.where(f)
     mparam = [a.arg for a in f.node.args.args][1]
 
